@@ -26,7 +26,7 @@ impl Like<Prefix> for String { fn like(&self, p: &Prefix) -> bool { self.starts_
 
 # Before the root-binding repair the root pattern receives the asserted expression itself
 # (an owned place), not a reference to it; the generator avoids the cells this breaks.
-ROOT_IS_REF = False
+ROOT_IS_REF = True
 
 
 class Case:
@@ -55,26 +55,70 @@ def gen_cases(rng, n, stream, allow_regex=True, forms=None, depth=2):
         else:
             c.value = v if rng.random() < 0.4 else g.perturb(v, t, rng.choice([0.15, 0.35, 0.6]))
         c.perturbed = c.value != v
-        c.text = "v, " + pat
+        finish_case(c, g.decls(), g.rust_type(t), g.rust_expr(c.value, t), tgen.sexp(c.value), pat)
         cases.append(c)
+    return cases
+
+
+def finish_case(c, decls, type_text, value_text, value_sexp, pattern):
+    c.decls_text = decls
+    c.type_text = type_text
+    c.value_text = value_text
+    c.value_sexp = value_sexp
+    c.pattern = pattern
+    c.text = "v, " + pattern
+
+
+def gen_position_cases(rng, nbase, positions, allow_regex=True, forms=None):
+    """The same (value, pattern) in every position; c.base identifies the group."""
+    import positions as P
+    cases = []
+    k = 0
+    for b in range(nbase):
+        g = tgen.Gen(rng, allow_regex=allow_regex)
+        t = g.gen_type(rng.choice([0, 0, 1, 1, 2]), allow=("atom", "option", "vec", "tuple", "struct", "enum"))
+        v0 = g.gen_val(t)
+        pg = tgen.PatGen(g, rng, forms=forms, root_is_ref=True)
+        pat = pg.pat(v0, t, depth=1)
+        v = v0 if rng.random() < 0.5 else g.perturb(v0, t, 0.5)
+        extra = "(v %s (int 0)) (v %s (str %s)) (m %s %s)" % (hexs("0"), hexs('"k"'), hexs("k"), hexs("get"), hexs("field:f"))
+        for pos in positions:
+            c = Case()
+            c.id = k
+            k += 1
+            c.base = b
+            c.position = pos
+            c.gen = g
+            c.ty = t
+            c.value = v
+            c.inner_pattern = pat
+            c.forms = dict(pg.forms_used)
+            c.meanings = pg.meanings_sexp()[:-1] + " " + extra + ")"
+            wd, wt, wv, wp, ws = P.wrap(pos, g, t, v, pat)
+            finish_case(c, g.decls() + "\n" + wd, wt, wv, ws, wp)
+            cases.append(c)
     return cases
 
 
 def program(cases):
     """One binary: each case in a module of its own; the invocation text starts at column 1 of
-    its own line (mirroring the in-process harness, which prepends one blank)."""
+    its own line (mirroring the in-process harness, which prepends one blank).
+    Optional per-case attributes: setup (statements before), post (statements after the caught
+    assertion; may print `X <id> key=value` lines), asserted (the asserted expression, default `v`)."""
     out = [HEADER]
     lines = HEADER.count("\n")
     mains = []
     for c in cases:
-        pre = "mod case_%d {\nuse super::*;\n%s\npub fn run() {\nlet v: %s = %s;\nassert_struct!(\n" % (
-            c.id, c.gen.decls(), c.gen.rust_type(c.ty), c.gen.rust_expr(c.value, c.ty))
+        setup = getattr(c, "setup", "")
+        post = getattr(c, "post", "")
+        pre = "mod case_%d {\nuse super::*;\n%s\npub fn run() {\nlet v: %s = %s;\n%s\nrun_case(%d, || {\nassert_struct!(\n" % (
+            c.id, c.decls_text, c.type_text, c.value_text, setup, c.id)
         c.first_line = lines + pre.count("\n") + 1
-        body = " " + c.text + "\n);\n}\n}\n"
+        body = " " + c.text + "\n);\n});\n%s\n}\n}\n" % post
         out.append(pre + body)
         lines += pre.count("\n") + body.count("\n")
         c.last_line = lines
-        mains.append("    run_case(%d, case_%d::run);" % (c.id, c.id))
+        mains.append("    case_%d::run();" % c.id)
     out.append("fn main() {\n%s\n}\n" % "\n".join(mains))
     return "".join(out)
 
@@ -88,9 +132,10 @@ def expected_from_lean(ck, cases):
         c.parse = f[0]
         if f[0] != "ok":
             c.expect = ("parse-" + f[0], [])
+            c.parse_msg = unhexs(f[1]) if f[0] == "err" and len(f) > 1 else f[0]
             continue
         c.ast = f[1]
-        reqs.append("frontier\t%s\t%s\t%s\tnojoin" % (f[1], tgen.sexp(c.value), c.meanings))
+        reqs.append("frontier\t%s\t%s\t%s\tnojoin" % (f[1], c.value_sexp, c.meanings))
         idx.append(c)
     res = ck.lean_batch(reqs) if reqs else []
     for c, r in zip(idx, res):
@@ -107,25 +152,33 @@ def expected_from_lean(ck, cases):
             c.expect = ("lean-" + f[0], [])
 
 
-def run_corpus(ck, stream, n, per_bin=20, allow_regex=True, forms=None, default_features=True, seed_salt=0, use_cache=True):
+def run_corpus(ck, stream, n, per_bin=20, allow_regex=True, forms=None, default_features=True, seed_salt=0, use_cache=True, positions=None):
     """Returns the list of cases with .expect (spec) and .got (implementation)."""
     key = "%s-%s-%d-%s-%d-%d-%s-%s" % (repo_hash(), stream, ck.seed, ck.tier, n, seed_salt, allow_regex, default_features)
     cdir = os.path.join(CACHE, "t3")
     os.makedirs(cdir, exist_ok=True)
     cpath = os.path.join(cdir, key + ".json")
     rng = random.Random("%d/%s/%d" % (ck.seed, stream, seed_salt))
-    cases = gen_cases(rng, n, stream, allow_regex=allow_regex, forms=forms)
+    if callable(positions):
+        cases = positions(rng, n)
+    elif positions:
+        cases = gen_position_cases(rng, n, positions, allow_regex=allow_regex, forms=forms)
+    else:
+        cases = gen_cases(rng, n, stream, allow_regex=allow_regex, forms=forms)
     expected_from_lean(ck, cases)
     if use_cache and os.path.exists(cpath):
         got = json.load(open(cpath))
         for c in cases:
-            c.got = tuple(got[str(c.id)]) if str(c.id) in got else ("missing", [], "")
-            c.got = (c.got[0], [tuple(x) for x in c.got[1]], c.got[2])
+            gg = got[str(c.id)] if str(c.id) in got else ["missing", [], "", {}]
+            c.got = (gg[0], [tuple(x) for x in gg[1]], gg[2])
+            c.extra = gg[3] if len(gg) > 3 else {}
         ck.notes.append("T3 corpus %s: results reused from this run's cache (same /repo tree, seed, tier)" % stream)
         return cases
     live = [c for c in cases if c.parse == "ok"]
     for c in cases:
         c.got = ("not-run", [], "")
+        if c.parse != "ok":
+            c.got = ("rejected", [], "macro-%s %s" % (c.parse, getattr(c, "parse_msg", "")))
     t0 = time.time()
     for attempt in range(3):
         proj = e2e.Project("t3-%s" % stream, default_features=default_features)
@@ -143,6 +196,15 @@ def run_corpus(ck, stream, n, per_bin=20, allow_regex=True, forms=None, default_
                     rc, out, err = proj.run(name, default_features=default_features)
                     seen = set()
                     for line in out.split("\n"):
+                        if line.startswith("X "):
+                            p = line.split(" ")
+                            for c in chunk:
+                                if c.id == int(p[1]):
+                                    if not hasattr(c, "extra"):
+                                        c.extra = {}
+                                    for kv in p[2:]:
+                                        a, b = kv.split("=", 1)
+                                        c.extra[a] = b
                         if not line.startswith("CASE "):
                             continue
                         p = line.split(" ")
@@ -185,7 +247,7 @@ def run_corpus(ck, stream, n, per_bin=20, allow_regex=True, forms=None, default_
         if not live:
             break
     ck.notes.append("T3 corpus %s: %d cases compiled and run in %.0fs" % (stream, n, time.time() - t0))
-    json.dump({str(c.id): [c.got[0], c.got[1], c.got[2]] for c in cases}, open(cpath, "w"))
+    json.dump({str(c.id): [c.got[0], c.got[1], c.got[2], getattr(c, "extra", {})] for c in cases}, open(cpath, "w"))
     # keep the cache small
     files = sorted((os.path.getmtime(os.path.join(cdir, f)), f) for f in os.listdir(cdir))
     for _, f in files[:-40]:
@@ -204,6 +266,10 @@ def compare(ck, cases, stream):
     for c in cases:
         ek, ee = c.expect
         gk, ge, gmsg = c.got
+        if ek.startswith("parse-"):
+            stats["rejected"] += 1
+            mism.append(dict(kind="rejected", case=c))
+            continue
         if ek != "ok":
             stats["illtyped-expected"] += 1
             if gk in ("pass", "fail") and ek == "illtyped":
@@ -234,5 +300,5 @@ def compare(ck, cases, stream):
 
 
 def describe(c):
-    return dict(type=c.gen.rust_type(c.ty), decls=c.gen.decls(), value=c.gen.rust_expr(c.value, c.ty),
+    return dict(type=c.type_text, decls=c.decls_text, value=c.value_text,
                 invocation="assert_struct!(%s)" % c.text, spec=c.expect, impl=[c.got[0], c.got[1]], message=c.got[2][:1500])
